@@ -191,6 +191,33 @@ def operator_octet(prog, rep, clsq):
         rep.ok('R07.h', key, file=fp.file, line=fp.node.lineno, found='256 octets')
     else:
         rep.undecided('R07.h', key, file=fp.file, line=fp.node.lineno, found='only %d octets evaluated' % n)
+    # the operand handed to the operator octet has at least one octet: construct_operator_flag maps a length of 0
+    # to code 0 (= 1 octet) without complaint, so an empty operand would be announced as one octet that is not there
+    fo = prog.func(clsq + '.construct_operators')
+    key = 'operand-nonempty:%s' % short
+    lens = [n for n in ast.walk(fo.node) if isinstance(n, ast.Assign) and isinstance(n.targets[0], ast.Subscript)
+            and src_of(n.targets[0].slice) in ("'LEN'", '"LEN"') and isinstance(n.value, ast.Call)
+            and src_of(n.value.func) == 'len' and n.value.args and isinstance(n.value.args[0], ast.Name)]
+    if not lens:
+        rep.undecided('R07.h', key, file=fo.file, line=fo.node.lineno, found="no flag['LEN'] = len(<operand>) found")
+    else:
+        var = lens[0].value.args[0].id
+        shrink = None
+        for n in ast.walk(fo.node):
+            if isinstance(n, ast.Assign) and any(isinstance(t, ast.Name) and t.id == var for t in n.targets):
+                for c in ast.walk(n.value):
+                    if isinstance(c, ast.Call) and isinstance(c.func, ast.Attribute) and \
+                            c.func.attr in ('lstrip', 'rstrip', 'strip'):
+                        shrink = c
+                    if isinstance(c, ast.Subscript) and isinstance(c.slice, ast.Slice):
+                        shrink = c
+        if shrink is not None:
+            rep.bad('R07.h', key, file=fo.file, line=shrink.lineno, func=fo.qualname,
+                    found='the operand bytes are produced by %s, which is empty for the operand 0: the operator octet '
+                          'then announces one value octet and none follows' % src_of(shrink)[:70],
+                    expected='an operand of at least one octet for every value', key=key)
+        else:
+            rep.ok('R07.h', key, file=fo.file, line=lens[0].lineno, found='operand %s' % var)
     fc = prog.func(clsq + '.construct_operator_flag')
     for ln in range(1, 9):
         key = 'operator-encode:%s:len=%d' % (short, ln)
@@ -413,6 +440,7 @@ def check(prog, rep, tier):
         key = 'label-size:%s' % qual.split('.')[-2]
         bad = None
         sbit = None
+        upper = None
         for k, v, s in outs:
             if k != 'val':
                 continue
@@ -429,6 +457,15 @@ def check(prog, rep, tier):
             elif last is not None and last[0] == 'fix':
                 if '| 1' not in last[2]:
                     sbit = sbit or 'last label %s has no bottom-of-stack bit' % last[2][:60]
+            # no S bit on an upper entry, whatever the label values (equal labels included)
+            first = BL.flatten(v)[0] if isinstance(v, BytesV) and len(BL.flatten(v)) >= 2 else None
+            if first is not None:
+                up = (first[0] == 'fix' and '| 1' in first[2]) or (first[0] == 'lit' and first[1] and first[1][-1] & 1)
+                if up:
+                    guards = ' & '.join(('%s' if b else 'not %s') % t for t, b, l, q in s.path[-3:])
+                    upper = upper or 'the first of two labels is emitted with the bottom-of-stack bit on the path %s: ' \
+                                     'the decoder stops there and reads the rest of the stack as prefix bits' % (
+                                         guards or '(unconditional)')
         if bad:
             rep.bad('R07.c', key, file=f.file, line=f.node.lineno, func=qual, found=bad, expected='3 octets per label', key=key)
         else:
@@ -437,6 +474,12 @@ def check(prog, rep, tier):
         if sbit:
             rep.bad('R07.f', key, file=f.file, line=f.node.lineno, func=qual, found=sbit,
                     expected='S bit set on the last label for every label value', key=key)
+        else:
+            rep.ok('R07.f', key, file=f.file, line=f.node.lineno)
+        key = 'label-sbit-upper:%s' % qual.split('.')[-2]
+        if upper:
+            rep.bad('R07.f', key, file=f.file, line=f.node.lineno, func=qual, found=upper,
+                    expected='S bit only on the last entry', key=key)
         else:
             rep.ok('R07.f', key, file=f.file, line=f.node.lineno)
 
